@@ -4,6 +4,7 @@ C03 (representation independence), operator level: `OpRepr true f` for every ope
 heap accounting (DESIGN §6-C), and `opUnknown`.
 -/
 import ClvmProofs.Lemmas.Interp.ReprAux
+import ClvmProofs.Lemmas.Interp.Fastpath
 
 namespace Clvm.Interp
 open Clvm Clvm.Alloc
@@ -409,5 +410,106 @@ theorem opMultiply_repr (cfg : Cfg) : OpRepr true (opMultiply cfg) := opRepr_of_
   cases hl with
   | nil => rfl
   | cons hx ht => simp only [intAtom_req hx, mulLoop_req _ _ _ _ ht]
+
+/-! ### add, subtract -/
+
+/-- invariant relating the two accumulators of the generic loops in two runs -/
+def AccRel (nm : Bool) (acc small acc' small' : Int) : Prop :=
+  if nm then small = small' else acc + small = acc' + small'
+
+theorem addGeneric_acc (nm : Bool) (cpa cpb maxCost : Nat) (l : List Val) (cost : Nat)
+    (acc small acc' small' : Int) (hacc : AccRel nm acc small acc' small') :
+    addGeneric nm cpa cpb maxCost l cost acc small = addGeneric nm cpa cpb maxCost l cost acc' small' := by
+  induction l generalizing cost acc small acc' small' with
+  | nil =>
+    cases nm
+    · simp only [AccRel, Bool.false_eq_true, if_false] at hacc; simp [addGeneric, hacc]
+    · simp only [AccRel, if_true] at hacc; simp [addGeneric, hacc]
+  | cons x l ih =>
+    cases x with
+    | pair _ _ => rfl
+    | atom b t =>
+      cases t <;> cases nm <;> simp only [AccRel, Bool.false_eq_true, if_false, if_true] at hacc <;>
+        simp only [addGeneric, node, Bool.false_eq_true, if_false, if_true] <;>
+        (try subst hacc) <;> split <;> (try rfl) <;> apply ih <;>
+        simp only [AccRel, Bool.false_eq_true, if_false, if_true] <;> omega
+
+theorem addGeneric_req (nm : Bool) (cpa cpb maxCost : Nat) {l l' : List Val} (h : ListReq l l') (cost : Nat)
+    (acc small : Int) :
+    addGeneric nm cpa cpb maxCost l cost acc small = addGeneric nm cpa cpb maxCost l' cost acc small := by
+  induction h generalizing cost acc small with
+  | nil => rfl
+  | @cons x x' l l' hx _ ih =>
+    have e1 : addGeneric nm cpa cpb maxCost (x :: l) cost acc small =
+        addGeneric nm cpa cpb maxCost (x :: l') cost acc small := by
+      simp only [addGeneric, ih]
+    rw [e1]
+    refine req_of_tag (fun v => addGeneric nm cpa cpb maxCost (v :: l') cost acc small) ?_ ?_ hx
+    · intro b hb
+      cases nm
+      · simp only [addGeneric, node, hb.dec, hb.len, Bool.false_eq_true, if_false, Nat.mul_comm cpb]
+        split
+        · rfl
+        · apply addGeneric_acc; simp only [AccRel, Bool.false_eq_true, if_false]; omega
+      · simp only [addGeneric, node, hb.dec, hb.len, if_true]
+    · intro l r l' r' _ _; rfl
+
+theorem subGeneric_acc (nm : Bool) (cpa cpb maxCost : Nat) (l : List Val) (cost : Nat)
+    (acc small acc' small' : Int) (isFirst : Bool) (hacc : AccRel nm acc small acc' small') :
+    subGeneric nm cpa cpb maxCost l cost acc small isFirst =
+      subGeneric nm cpa cpb maxCost l cost acc' small' isFirst := by
+  induction l generalizing cost acc small acc' small' isFirst with
+  | nil =>
+    cases nm
+    · simp only [AccRel, Bool.false_eq_true, if_false] at hacc; simp [subGeneric, hacc]
+    · simp only [AccRel, if_true] at hacc; simp [subGeneric, hacc]
+  | cons x l ih =>
+    cases x with
+    | pair _ _ => rfl
+    | atom b t =>
+      cases t <;> cases nm <;> simp only [AccRel, Bool.false_eq_true, if_false, if_true] at hacc <;>
+        simp only [subGeneric, node, Bool.false_eq_true, if_false, if_true] <;>
+        (try subst hacc) <;> split <;> (try rfl) <;> split <;> (try rfl) <;> apply ih <;>
+        simp only [AccRel, Bool.false_eq_true, if_false, if_true] <;> omega
+
+theorem subGeneric_req (nm : Bool) (cpa cpb maxCost : Nat) {l l' : List Val} (h : ListReq l l') (cost : Nat)
+    (acc small : Int) (isFirst : Bool) :
+    subGeneric nm cpa cpb maxCost l cost acc small isFirst =
+      subGeneric nm cpa cpb maxCost l' cost acc small isFirst := by
+  induction h generalizing cost acc small isFirst with
+  | nil => rfl
+  | @cons x x' l l' hx _ ih =>
+    have e1 : subGeneric nm cpa cpb maxCost (x :: l) cost acc small isFirst =
+        subGeneric nm cpa cpb maxCost (x :: l') cost acc small isFirst := by
+      simp only [subGeneric, ih]
+    rw [e1]
+    refine req_of_tag (fun v => subGeneric nm cpa cpb maxCost (v :: l') cost acc small isFirst) ?_ ?_ hx
+    · intro b hb
+      cases nm
+      · simp only [subGeneric, node, hb.dec, hb.len, Bool.false_eq_true, if_false]
+        split
+        · rfl
+        · split
+          · rfl
+          · apply subGeneric_acc; simp only [AccRel, Bool.false_eq_true, if_false]; omega
+      · simp only [subGeneric, node, hb.dec, hb.len, if_true]
+    · intro l r l' r' _ _; rfl
+
+
+theorem opAdd_repr (cfg : Cfg) : OpRepr true (opAdd cfg) := opRepr_of_eq fun flags m a a' c h => by
+  have key : opAdd { fastpath := false } flags m a c = opAdd { fastpath := false } flags m a' c := by
+    simp only [opAdd, Bool.false_eq_true, if_false, addGeneric_req _ _ _ _ (argList_req h)]
+  obtain ⟨fp⟩ := cfg
+  cases fp
+  · exact key
+  · rw [opAdd_fastpath flags m a c h.1, opAdd_fastpath flags m a' c h.2.1]; exact key
+
+theorem opSubtract_repr (cfg : Cfg) : OpRepr true (opSubtract cfg) := opRepr_of_eq fun flags m a a' c h => by
+  have key : opSubtract { fastpath := false } flags m a c = opSubtract { fastpath := false } flags m a' c := by
+    simp only [opSubtract, Bool.false_eq_true, if_false, subGeneric_req _ _ _ _ (argList_req h)]
+  obtain ⟨fp⟩ := cfg
+  cases fp
+  · exact key
+  · rw [opSubtract_fastpath flags m a c h.1, opSubtract_fastpath flags m a' c h.2.1]; exact key
 
 end Clvm.Interp
